@@ -168,3 +168,31 @@ def check_tree_adopts_all_detached(ctx, consequence: str):
         raise AnalysisError("register_static_tree: adoption sweep not found")
     ok = all(re.search(r"WHERE node \. detached AND substr", s.text) and "state" not in s.text.split("WHERE", 1)[1] and " AND " not in s.text.split("WHERE node . detached AND", 1)[1] for s in adopt)
     ctx.check(ok, rt.fq, "adoption sweep takes every detached file under the tree (no state filter)", consequence, "all detached rows")
+
+
+def check_after_recycle_repends(ctx, consequence: str):
+    """Step.after_recycle re-pends exactly the FAILED steps and the SUCCEEDED steps that lost their hash."""
+    ar = ctx.prog.func("step.Step.after_recycle")
+    SS = ctx.prog.enum("StepState")
+    n = 0
+    for st in SS:
+        for has_hash in (True, False):
+            fp = finite.feasible_paths(ctx.prog, ar, {}, {"self.get_state()": st, "self.get_hash()": (object() if has_hash else None)})
+            for tr, s in fp:
+                n += 1
+                rep = any(e[0] == "call" and e[1].endswith("mark_step_pending") for e in tr)
+                exp = st == SS.FAILED or (st == SS.SUCCEEDED and not has_hash)
+                ctx.check(rep == exp, ar.fq, f"state={st.name} hash={'yes' if has_hash else 'no'}", f"re-pended={rep}, expected {exp}: {consequence}", "re-pended" if exp else "kept")
+    if n == 0:
+        raise AnalysisError("Step.after_recycle: no feasible path")
+
+
+def check_lost_product_chain(ctx, consequence: str):
+    """Step.after_lost_product drops the step's hash and hands the invalidation on to a detached creator (so that the
+    whole chain of plans that would re-declare the lost product runs again)."""
+    alp = ctx.prog.func("step.Step.after_lost_product")
+    calls = calls_in(alp.node)
+    own = any(callee_name(c) == "delete_hash" and isinstance(c.func, ast.Attribute) and ast.unparse(c.func.value) == "self" for c in calls)
+    up = [c for c in calls if callee_name(c) == "after_lost_product" and isinstance(c.func, ast.Attribute) and ast.unparse(c.func.value) != "self" and not ast.unparse(c.func.value).startswith("super")]
+    ctx.check(own, alp.fq, "a step that lost a product drops its hash", "the step keeps a hash that no longer describes a complete run", "delete_hash")
+    ctx.check(bool(up), alp.fq, "the invalidation is handed on to the detached creator (recursively)", consequence, "creator.after_lost_product()", where=ctx.where_of(alp))
